@@ -1591,6 +1591,8 @@ func (m *tqModel) noPanics() {
 }
 
 var c06Canaries = []Canary{
+	{Name: "r7-agent-eof-loop", ExpectKey: "C06.R2#custom-agent:read-error-ends-the-read", Edits: []Edit{{File: "tq/custom.go", Find: "}\n\nfunc (a *customAdapter) readResponse(ctx *customAdapterWorkerContext) (*customAdapterResponseMessage, error) {\n\tline, err := ctx.bufferedOut.ReadString('\\n')\n\tif err != nil {\n\t\treturn nil, err\n\t}\n\ta.Trace(\"xfer: Custom adapter worker %d received response: %v\", ctx.workerNum, strings.TrimSpace(line))\n\tresp := &customAdapterResponseMessage{}\n\terr = json.Unmarshal([]byte(line), resp)\n\treturn resp, err\n}\n\n", Repl: "}\n\nfunc (a *customAdapter) readResponse(ctx *customAdapterWorkerContext) (*customAdapterResponseMessage, error) {\n\t// Transfer agents may pad their output with blank lines, and the last\n\t// message a process writes need not be newline-terminated.\n\tvar line string\n\tfor len(strings.TrimSpace(line)) == 0 {\n\t\tvar err error\n\t\tline, err = ctx.bufferedOut.ReadString('\\n')\n\t\tif err != nil && err != io.EOF {\n\t\t\treturn nil, err\n\t\t}\n\t}\n\ta.Trace(\"xfer: Custom adapter worker %d received response: %v\", ctx.workerNum, strings.TrimSpace(line))\n\tresp := &customAdapterResponseMessage{}\n\terr := json.Unmarshal([]byte(line), resp)\n\treturn resp, err\n}\n\n"}}},
+	{Name: "r7-concat-drops-waiting", ExpectKey: "C06.R2#Concat:result-holds-every-tuple", Edits: []Edit{{File: "tq/transfer_queue.go", Find: "\t\t// If the size of left fits the given size limit, return with no adjustments.\n\t\treturn left, right, minWait\n\t}\n\t// If left is too large, trip left up to size and append the rest to right.\n\tright = append(right, left[size:]...)\n\tleft = left[:size]\n\treturn left, right, minWait\n}\n\nfunc (b batch) ToTransfers() []*Transfer {\n", Repl: "\t\t// If the size of left fits the given size limit, return with no adjustments.\n\t\treturn left, right, minWait\n\t}\n\t// If left is too large, trim left down to size; the rest goes to right.\n\treturn left[:size], left[size:], minWait\n}\n\nfunc (b batch) ToTransfers() []*Transfer {\n"}}},
 	{Name: "f19-null-batch-entry", ExpectKey: "C06.R9", Edits: []Edit{{File: "tq/api.go", Find: "\t\treturn nil, lfshttp.NewStatusCodeError(res)\n\t}\n\n\t// A response may contain null where an object or an action is\n\t// expected. Such an entry names nothing: drop it here, so that the\n\t// transfer queue reports the objects the response does not list\n\t// instead of dereferencing a nil pointer.\n\tobjects := bRes.Objects[:0]\n\tfor _, obj := range bRes.Objects {\n\t\tif obj == nil {\n\t\t\tcontinue\n\t\t}\n\t\tobj.Missing = missing[obj.Oid]\n\t\tfor rel, a := range obj.Actions {\n\t\t\tif a == nil {\n\t\t\t\tdelete(obj.Actions, rel)\n\t\t\t\tcontinue\n\t\t\t}\n\t\t\ta.createdAt = requestedAt\n\t\t}\n\t\tfor rel, a := range obj.Links {\n\t\t\tif a == nil {\n\t\t\t\tdelete(obj.Links, rel)\n\t\t\t}\n\t\t}\n\t\tobjects = append(objects, obj)\n\t}\n\tbRes.Objects = objects\n\n\treturn bRes, nil\n}\n", Repl: "\t\treturn nil, lfshttp.NewStatusCodeError(res)\n\t}\n\n\tfor _, obj := range bRes.Objects {\n\t\tobj.Missing = missing[obj.Oid]\n\t\tfor _, a := range obj.Actions {\n\t\t\ta.createdAt = requestedAt\n\t\t}\n\t}\n\n\treturn bRes, nil\n}\n"}}},
 	{Name: "f18-422-not-reported", ExpectKey: "C06.R11", Edits: []Edit{{File: "tq/transfer_queue.go", Find: "\t\t\t// If the error wasn't retriable, OR the object has\n\t\t\t// exceeded its retry budget, it will be NOT be sent to\n\t\t\t// the retry channel, and the error will be reported\n\t\t\t// immediately (for a HTTP 422, together with a hint\n\t\t\t// printed when the queue finishes).\n\t\t\tif errors.IsUnprocessableEntityError(res.Error) {\n\t\t\t\tq.unsupportedContentType = true\n\t\t\t}\n\t\t\tq.errorc <- res.Error\n\t\t\tq.wait.Done()\n\t\t}\n\t} else {\n", Repl: "\t\t\t// If the error wasn't retriable, OR the object has\n\t\t\t// exceeded its retry budget, it will be NOT be sent to\n\t\t\t// the retry channel, and the error will be reported\n\t\t\t// immediately (unless the error is in response to a\n\t\t\t// HTTP 422).\n\t\t\tif errors.IsUnprocessableEntityError(res.Error) {\n\t\t\t\tq.unsupportedContentType = true\n\t\t\t} else {\n\t\t\t\tq.errorc <- res.Error\n\t\t\t}\n\t\t\tq.wait.Done()\n\t\t}\n\t} else {\n"}}},
 	{Name: "r6-deliver-in-two-critical-sections", ExpectKey: "C06.R8#deliver:mark-and-notify-under-one-lock", Edits: []Edit{{File: "tq/transfer_queue.go", Find: "\t} else {\n\t\tq.trMutex.Lock()\n\t\tobjects := q.transfers[oid]\n\t\tobjects.completed = true\n\n\t\t// Otherwise, if the transfer was successful, notify all of the\n\t\t// watchers, and mark it as finished.\n\t\tfor _, c := range q.watchers {\n\t\t\t// Send one update for each transfer with the\n\t\t\t// same OID.\n", Repl: "\t} else {\n\t\tq.trMutex.Lock()\n\t\tobjects := q.transfers[oid]\n\t\tq.trMutex.Unlock()\n\n\t\t// Otherwise, if the transfer was successful, notify all of the\n\t\t// watchers, and mark it as finished. The watcher channels may be\n\t\t// full, so don't make Add() wait for their consumers.\n\t\tfor _, c := range q.watchers {\n\t\t\t// Send one update for each transfer with the\n\t\t\t// same OID.\n"}, {File: "tq/transfer_queue.go", Find: "\t\t\t}\n\t\t}\n\n\t\tq.trMutex.Unlock()\n\n\t\tq.meter.FinishTransfer(res.Transfer.Name)\n", Repl: "\t\t\t}\n\t\t}\n\n\t\tq.trMutex.Lock()\n\t\tobjects.completed = true\n\t\tq.trMutex.Unlock()\n\n\t\tq.meter.FinishTransfer(res.Transfer.Name)\n"}}},
